@@ -41,14 +41,17 @@ theorem insertNat_isEmpty (k : Nat) (l : List Nat) : (insertNat k l).isEmpty = f
     · split <;> rfl
 
 theorem sendPingResetTimer_flow (cfg : Cfg) (s : St) :
-    (sendPingResetTimer cfg s).conn = s.conn ∧ (sendPingResetTimer cfg s).readPaused = s.readPaused ∧
-      (sendPingResetTimer cfg s).inPaused = s.inPaused := by
-  simp only [sendPingResetTimer, sendPing]
+    (sendPingResetTimer cfg s).1.conn = s.conn ∧ (sendPingResetTimer cfg s).1.readPaused = s.readPaused ∧
+      (sendPingResetTimer cfg s).1.inPaused = s.inPaused := by
+  simp only [sendPingResetTimer, sendPing_eq]
   split
-  · exact ⟨rfl, rfl, rfl⟩
-  · split
+  · simp only [andThen_ok]
+    split
     · exact ⟨rfl, rfl, rfl⟩
-    · split <;> exact ⟨rfl, rfl, rfl⟩
+    · split
+      · exact ⟨rfl, rfl, rfl⟩
+      · split <;> exact ⟨rfl, rfl, rfl⟩
+  · exact ⟨rfl, rfl, rfl⟩
 
 theorem signalReconnect_flow (s : St) :
     (signalReconnect s).conn = s.conn ∧ (signalReconnect s).readPaused = s.readPaused ∧
@@ -56,14 +59,22 @@ theorem signalReconnect_flow (s : St) :
   simp only [signalReconnect]; split <;> exact ⟨rfl, rfl, rfl⟩
 
 theorem ttOutputs_flow (cfg : Cfg) (outs : List TrafficTimer.Output) (s : St) :
-    (ttOutputs cfg outs s).conn = s.conn ∧ (ttOutputs cfg outs s).readPaused = s.readPaused ∧
-      (ttOutputs cfg outs s).inPaused = s.inPaused := by
+    (ttOutputs cfg outs s).1.conn = s.conn ∧ (ttOutputs cfg outs s).1.readPaused = s.readPaused ∧
+      (ttOutputs cfg outs s).1.inPaused = s.inPaused := by
   induction outs generalizing s with
   | nil => exact ⟨rfl, rfl, rfl⟩
   | cons o r ih =>
     cases o
-    · have a := ih (sendPingResetTimer cfg s); have b := sendPingResetTimer_flow cfg s
-      exact ⟨a.1.trans b.1, a.2.1.trans b.2.1, a.2.2.trans b.2.2⟩
+    · simp only [ttOutputs]
+      have b := sendPingResetTimer_flow cfg s
+      generalize sendPingResetTimer cfg s = r1 at b
+      obtain ⟨s1, e⟩ := r1
+      cases e with
+      | none =>
+        simp only [andThen_ok]
+        have a := ih s1
+        exact ⟨a.1.trans b.1, a.2.1.trans b.2.1, a.2.2.trans b.2.2⟩
+      | some e => exact b
     · have a := ih (signalReconnect s); have b := signalReconnect_flow s
       exact ⟨a.1.trans b.1, a.2.1.trans b.2.1, a.2.2.trans b.2.2⟩
 
@@ -101,7 +112,7 @@ theorem flow_pong {T id : Nat} {s s' : St} (hf : FlowInv s)
 theorem flow_made {T : Nat} {s s' : St} (hi : Inv T s)
     (h : step (Cfg.real T) s .made = (s', none)) : FlowInv s' := by
   by_cases hl : s.role = some true
-  · obtain ⟨_, _, _, he⟩ := made_leader hi hl h
+  · obtain ⟨_, _, _, he, _⟩ := made_leader hi hl h
     subst he
     exact ⟨fun _ => rfl, fun hc => by simp at hc⟩
   · simp only [step, connMade, hl, if_false, andThen_ok] at h
@@ -153,6 +164,7 @@ theorem flow_step {T : Nat} {s s' : St} {o : Op} (hi : Inv T s) (hf : FlowInv s)
   | stop => exact viaMgr _ _ { s with stopCalled := true } rfl rfl rfl h
   | pause => simp only [step, Prod.mk.injEq, and_true] at h; subst h; exact hf
   | resume => simp only [step, Prod.mk.injEq, and_true] at h; subst h; exact hf
+  | rnd ids => simp only [step, Prod.mk.injEq, and_true] at h; subst h; exact hf
   | cpause k =>
     simp only [step, Prod.mk.injEq, and_true] at h; subst h
     obtain ⟨h1, h2⟩ := hf
